@@ -129,7 +129,11 @@ def impl(case):
     try:
         if case.get("proxy"):
             # a ProxyManager: http targets are served by the pool of the proxy itself, https targets by a pool per target (tunnel)
-            pm = urllib3.ProxyManager("%s://proxy.example:3128" % case["proxy"], num_pools=50, **defaults)
+            if case["proxy"] == "https_fwd":
+                # https targets forwarded to an https proxy instead of tunnelled: they still get a pool per target
+                pm = urllib3.ProxyManager("https://proxy.example:3128", num_pools=50, use_forwarding_for_https=True, **defaults)
+            else:
+                pm = urllib3.ProxyManager("%s://proxy.example:3128" % case["proxy"], num_pools=50, **defaults)
         else:
             pm = urllib3.PoolManager(num_pools=50, **defaults)
     except TypeError:
@@ -344,7 +348,7 @@ def cases(rng, tier):
         reqs = [{"host": h, "port": p, "scheme": s, "kw": rng.choice([None, {k2: v2}, {k1: w1}, {k1: w1, k2: v2}, {k1: ["none"]}])} for _ in range(rng.randint(2, 4))]
         out.append({"defaults": defaults, "reqs": reqs})
     # the same through a ProxyManager (http and https proxy): per-request settings still separate pools, for forwarded and for tunnelled targets
-    for proxy in ("http", "https"):
+    for proxy in ("http", "https", "https_fwd"):
         for kw in kws:
             if kw in ("_proxy", "_proxy_headers", "_proxy_config"):
                 continue          # a ProxyManager sets these itself
